@@ -1,5 +1,6 @@
 """Fan-out, violation handling (reproduce, shrink, replay file), known findings,
 evidence. One engine run is a pure function of its tape."""
+import asyncio
 import collections
 import concurrent.futures
 import faulthandler
@@ -80,7 +81,7 @@ def _worker_batch(args):
             tape = Tape(seed=seed)
             try:
                 res = eng.run(tape, prop, tier)
-            except Exception:
+            except (Exception, asyncio.CancelledError):
                 agg["errors"].append((idx, seed, traceback.format_exc()[-3000:]))
                 continue
             agg["runs"] += 1
